@@ -127,6 +127,17 @@ User2Leaf == /\ Running /\ Top.ph = "start" /\ Top.n.op = "user2"
                 IF IsEOF(Env, p) \/ Toks[p].t # "Ident" THEN Finish(ctxs, log, Ret("no", <<>>, FALSE))
                 ELSE Finish(SetTop(ctxs, [C EXCEPT !.st = [raw |-> p + 1, cur |-> C.st.cur + 1, fc |-> C.st.fc]]), log, Ret("ok", <<[user2 |-> Toks[p].v]>>, TRUE))
 
+\* user code that fails AFTER taking a token, with an error wrapping the "no match" sentinel (a participle.Error located at the
+\* token it wanted to be "!")
+User3Leaf == /\ Running /\ Top.ph = "start" /\ Top.n.op = "user3"
+             /\ Emit(<<>>)
+             /\ LET p == NxtFrom(Env, C.st.raw) IN
+                IF IsEOF(Env, p) THEN Finish(ctxs, log, Ret("no", <<>>, FALSE))
+                ELSE LET q == NxtFrom(Env, p + 1) IN
+                     IF ~IsEOF(Env, q) /\ Toks[q].v = "!"
+                     THEN Finish(SetTop(ctxs, [C EXCEPT !.st = [raw |-> q + 1, cur |-> C.st.cur + 2, fc |-> C.st.fc]]), log, Ret("ok", <<[user3 |-> Toks[p].v]>>, TRUE))
+                     ELSE Finish(SetTop(ctxs, [C EXCEPT !.st = [raw |-> p + 1, cur |-> C.st.cur + 1, fc |-> C.st.fc]]), log, RetE("err", <<>>, FALSE, E(q, FALSE)))
+
 \* ---------------------------------------------------------------- sequence
 SeqStart == /\ Running /\ Top.ph = "start" /\ Top.n.op = "seq"
           /\ Emit(<<>>)
@@ -301,7 +312,7 @@ MInit == /\ gi \in 1..Len(Cases) /\ ii \in 1..Len(Cases[gi].inputs) /\ ki \in 1.
          /\ ctxs = <<[st |-> [raw |-> 1, cur |-> 0, fc |-> 0], pend |-> <<>>, nid0 |-> 1, dd |-> 0, de |-> NoErr]>>
          /\ log = <<>> /\ nid = 1 /\ ret = NoRet /\ evs = <<>> /\ eout = NoErr /\ trc = <<>>
 
-MNext == \/ LitRef \/ UserLeaf \/ User2Leaf \/ SeqStart \/ SeqRet \/ AltStart \/ AltRet \/ GrpStart \/ GrpRet \/ CapStart \/ CapRet
+MNext == \/ LitRef \/ UserLeaf \/ User2Leaf \/ User3Leaf \/ SeqStart \/ SeqRet \/ AltStart \/ AltRet \/ GrpStart \/ GrpRet \/ CapStart \/ CapRet
          \/ ProdStart \/ ProdRet \/ NegStart \/ NegRet \/ LookStart \/ LookRet \/ Terminate
 MSpec == MInit /\ [][MNext]_mvars /\ WF_mvars(MNext)
 
